@@ -231,6 +231,38 @@ validations:
 `)
 }
 
+func init() {
+	c15Bases = append(c15Bases,
+		// 5: and/or whose operands are embedded Rego snippets (same path, same default message, different code)
+		`profile: c15 rego operands
+prefixes:
+  ex: http://ex.org/
+violation:
+  - both
+warning:
+  - either
+validations:
+  both:
+    message: both
+    targetClass: ex.T
+    and:
+      - rego: "$result = (count(object.get($node, \"http://ex.org/p1\", [])) > 0)"
+      - rego: "$result = (count(object.get($node, \"http://ex.org/p2\", [])) > 0)"
+  either:
+    message: either
+    targetClass: ex.T
+    or:
+      - rego: "$result = (count(object.get($node, \"http://ex.org/p3\", [])) > 0)"
+      - rego: "$result = (count(object.get($node, \"http://ex.org/p1\", [])) > 0)"
+      - propertyConstraints:
+          ex.num:
+            minExclusive: 2.0000001
+      - propertyConstraints:
+          ex.num:
+            minExclusive: 7.0000002
+`)
+}
+
 const apiExtNS = "http://a.ml/vocabularies/api-extension#"
 const coreNS = "http://a.ml/vocabularies/core#"
 
@@ -249,6 +281,7 @@ func c15Graph() *Graph {
 	for m := 0; m < 8; m++ {
 		n := g.Add(nid(m), EX+"T")
 		n.P(EX+"name", names[m])
+		n.P(EX+"num", m)
 		if m%2 == 0 {
 			n.P(EX+"tag", "minCount-ok") // a scalar VALUE in the profile equals a sibling KEY name (`pattern: minCount`)
 		}
@@ -431,6 +464,7 @@ func c15Successors(s c15State) []c15Succ {
 				mut(fmt.Sprintf("rename prefix %s->%s", o, w), func(r *yaml.Node) {
 					var rec func(n *yaml.Node, inPrefixes bool)
 					rec = func(n *yaml.Node, inPrefixes bool) {
+						// (embedded Rego is code, not profile vocabulary: it is never rewritten — inPrefixes doubles as "leave alone")
 						if n.Kind == yaml.ScalarNode && !inPrefixes {
 							n.Value = compactRe.ReplaceAllStringFunc(n.Value, func(m string) string {
 								if strings.HasPrefix(m, o+".") {
@@ -443,6 +477,12 @@ func c15Successors(s c15State) []c15Succ {
 							isP := inPrefixes
 							if n.Kind == yaml.MappingNode && ci%2 == 1 && n.Content[ci-1].Value == "prefixes" && n == r.Content[0] {
 								isP = true
+							}
+							if n.Kind == yaml.MappingNode && ci%2 == 1 {
+								switch n.Content[ci-1].Value {
+								case "rego", "regoModule", "code", "rego_extensions":
+									isP = true
+								}
 							}
 							rec(ch, isP)
 						}
@@ -522,7 +562,12 @@ func c15Canon(text string) (string, error) {
 		case map[string]any:
 			out := map[string]any{}
 			for k, e := range t {
-				out[expand(k)] = canon(e)
+				switch k {
+				case "rego", "regoModule", "code", "rego_extensions":
+					out[k] = e // code: compared verbatim
+				default:
+					out[expand(k)] = canon(e)
+				}
 			}
 			return out
 		case []any:
